@@ -82,6 +82,14 @@ RunVerdict(r) ==
                THEN "-v does not list exactly the satisfying rows"
           ELSE IF r.has_dot /\ ~r.model /\ r.retain = "Any" /\ ~DotBddOK(r.dot, G, r.filter)
                THEN "-d: exported graph does not denote the diagram"
+          \* -m / -c together with -v or -d: all outputs of one run describe the same (model / retained) diagram,
+          \* the one the table of that run prints
+          ELSE IF r.has_vars /\ r.has_table /\ (r.model \/ r.retain # "Any") /\
+                  ~VarsOK(SortedNames(FV(tree)), r.vlines, TableFunction(hdr, Rows(r), IF r.filter = "False" THEN "False" ELSE "Any"))
+               THEN (IF r.model THEN "-m" ELSE "-c") \o " with -v: the lines are not the satisfying rows of the diagram the table prints"
+          ELSE IF r.has_dot /\ r.has_table /\ (r.model \/ r.retain # "Any") /\
+                  ~DotBddOK(r.dot, TableFunction(hdr, Rows(r), IF r.filter = "False" THEN "False" ELSE "Any"), r.filter)
+               THEN (IF r.model THEN "-m" ELSE "-c") \o " with -d: the exported graph is not the diagram the table prints"
           ELSE IF r.has_ptree /\ ~DotTreeOK(r.ptree, tree) THEN "-p: exported graph is not the parse tree"
           ELSE IF r.has_api /\ SetOfTable(r.api_tt) # G THEN "API with NamedSymbol ordering: different function"
           ELSE IF r.has_api /\ ~r.api_ok THEN "API with NamedSymbol ordering: diagram not ordered / to_free_index not total"
